@@ -33,7 +33,11 @@ func replayOne(r *core.Run) {
 	flag := func(m map[string]interface{}, k string) bool { b, _ := m[k].(bool); return b }
 	kind := str(rec.Key, "kind")
 	input := str(rec.Detail, "input")
-	table, _, _, res := generate(r, "JsSemGen.eval.cfg", map[string]string{"DoReq": "FALSE"})
+	subst := map[string]string{"DoReq": "FALSE"}
+	if q, ok := rec.Detail["q"].(float64); ok && (q == 13 || q == 23) {
+		subst["Q"] = fmt.Sprint(int(q)) // the environment table of the tier that recorded the scenario
+	}
+	table, _, _, res := generate(r, "JsSemGen.eval.cfg", subst)
 	if res == nil || table == nil {
 		r.Infra("cannot obtain the environment table")
 		return
@@ -65,12 +69,20 @@ func replayOne(r *core.Run) {
 		opt, _ := rec.Detail["options"].(map[string]interface{})
 		v := variant{name: str(rec.Key, "variant"), syntax: flag(opt, "minifySyntax"), whitespace: flag(opt, "minifyWhitespace"),
 			identifiers: flag(opt, "minifyIdentifiers"), keepNames: flag(opt, "keepNames"), bundle: flag(opt, "bundle")}
-		out, err := build(input, v)
+		v.mode = str(opt, "constants")
+		var out string
+		var err error
+		if v.mode != "" {
+			out, err = buildXc(input, v, r.Scratch)
+		} else {
+			out, err = build(input, v)
+		}
 		if err != nil {
 			r.Infra("esbuild rejects the replayed input: %v", err)
 			return
 		}
-		in.Jobs = []job{{ID: "replay", Srcs: []string{input, out}, Units: []unit{{ID: "0", Call: "main(__env.a, __env.b)", EnvSet: "q", Want: []int{}}}}}
+		family := str(rec.Detail, "family")
+		in.Jobs = []job{{ID: "replay", Srcs: []string{referencePrelude(family) + input, out}, Units: []unit{{ID: "0", Call: "main(__env.a, __env.b)", EnvSet: envSetOf(family), Want: []int{}}}}}
 	default:
 		r.Infra("replay of kind %q is not supported (re-run the tier instead)", kind)
 		return
